@@ -338,16 +338,16 @@ func diffText(a, b execution) string {
 }
 
 func run(c *vf.Ctx) {
+	bound := 2
+	if c.Thorough() {
+		bound = 3
+		fullPermLimit = 8
+	}
 	if os.Getenv("VERIF_C15_DIGEST") == "1" {
 		for _, h := range histories() {
 			fmt.Printf("DIGEST %s %s\n", h.name, digest(runWith(h, nil)))
 		}
 		os.Exit(0)
-	}
-	bound := 2
-	if c.Thorough() {
-		bound = 3
-		fullPermLimit = 8
 	}
 	var counter int64
 	for _, h := range histories() {
